@@ -407,12 +407,12 @@ theorem ReachB.reach {fb : Bool} {bo : Nat → Option Nat} {q0 q : State} (h : R
   | init => exact Reach.init
   | step _ hc _ hs ih => exact Reach.step ih hc hs
 
-structure B (bo : Nat → Option Nat) (q : State) : Prop where
-  stored : ∀ id m, q.msgs id = some m → id ∉ q.s.rem → m.attempts = 0 ∨ (bo m.attempts).isSome
-  handed : ∀ e ∈ q.handed, e.2.2 = 0 ∨ (bo e.2.2).isSome
+structure B (bo : Nat → Option Nat) (base : Nat → Nat) (q : State) : Prop where
+  stored : ∀ id m, q.msgs id = some m → id ∉ q.s.rem → m.attempts = base id ∨ (bo m.attempts).isSome
+  handed : ∀ e ∈ q.handed, e.2.2 = base e.1 ∨ (bo e.2.2).isSome
 
-theorem B_step {fb : Bool} {bo : Nat → Option Nat} {q q' : State} {l : Label} (hI : Inv fb q) (hB : B bo q)
-    (ho : obeys bo q l) (hs : step fb q l = some q') : B bo q' := by
+theorem B_step {fb : Bool} {bo : Nat → Option Nat} {base : Nat → Nat} {q q' : State} {l : Label} (hI : Inv fb q) (hA : A base q)
+    (hB : B bo base q) (ho : obeys bo q l) (hs : step fb q l = some q') : B bo base q' := by
   have hss0 := step_sched hs
   unfold step at hs
   split at hs
@@ -451,7 +451,14 @@ theorem B_step {fb : Bool} {bo : Nat → Option Nat} {q q' : State} {l : Label} 
       exact ⟨fun j m hm hr => hB.stored j m hm (by simpa [hrem] using hr), hB.handed⟩
     | write id ts rcpts nn =>
       simp only [toSched] at hss
-      obtain ⟨_, hview⟩ := sched_write hss
+      obtain ⟨hid, hview⟩ := sched_write hss
+      have hnk : id ∉ q.s.known := by
+        simp only [Sched.step] at hss
+        split at hss
+        · simp at hss
+        · rename_i hg
+          simp only [Bool.or_eq_true, not_or] at hg
+          simpa using hg.1.1
       simp only at hs
       split at hs
       · simp only [Option.some.injEq] at hs; subst hs
@@ -462,7 +469,14 @@ theorem B_step {fb : Bool} {bo : Nat → Option Nat} {q q' : State} {l : Label} 
         · subst hj
           have : some (⟨rcpts, 0⟩ : Msg) = some m := (upd_same q.msgs j _).symm.trans hm
           simp only [Option.some.injEq] at this; subst this
-          exact Or.inl rfl
+          left
+          show 0 = base j
+          by_cases hb : base j = 0
+          · exact hb.symm
+          · exfalso
+            rcases hA.baseZero j hb with h | h
+            · exact hid h
+            · exact hnk h
         · exact hB.stored j m ((upd_ne q.msgs _ hj).symm.trans hm) (by simpa [hrem] using hr)
       · simp at hs
     | activate id =>
@@ -474,11 +488,13 @@ theorem B_step {fb : Bool} {bo : Nat → Option Nat} {q q' : State} {l : Label} 
       obtain ⟨r, hr, hm⟩ := hI.led.fresh id hw
       simp only [hr, Option.some.injEq] at hs; subst hs
       have hrem : s'.rem = q.s.rem := congrArg View.rem hview
+      have hv := vok_of_inv hI.sched
+      obtain ⟨_, _, _, w4, _⟩ := hv.written id hw
       refine ⟨fun j m hmj hrj => hB.stored j m hmj (by simpa [hrem] using hrj), ?_⟩
       intro e he
       simp only [List.mem_cons] at he
       rcases he with rfl | he
-      · exact Or.inl rfl
+      · exact hB.stored id ⟨r, 0⟩ hm w4
       · exact hB.handed e he
     | dequeue id c =>
       simp only [toSched] at hss
@@ -590,17 +606,30 @@ theorem B_step {fb : Bool} {bo : Nat → Option Nat} {q q' : State} {l : Label} 
       · exact hB.stored j mj ((upd_ne q.msgs _ hj).symm.trans hmj)
           (fun hx => hrj (by show j ∈ s'.rem; rw [hrem]; exact mem_without.mpr ⟨hx, hj⟩))
 
+theorem reach_B_from {fb : Bool} {bo : Nat → Option Nat} {base : Nat → Nat} {q0 q : State} (h0 : Inv fb q0) (hA0 : A base q0)
+    (hB0 : B bo base q0) (hr : ReachB fb bo q0 q) : B bo base q := by
+  induction hr with
+  | init => exact hB0
+  | step hprev hc ho hs ih => exact B_step (reach_inv_from h0 hprev.reach) (reach_A_from h0 hA0 hprev.reach) ih ho hs
+
+theorem B_startAt (bo : Nat → Option Nat) (pre : List (Nat × Nat)) (rc : Nat → List Rcpt) (nn : Nat → Bool) (att : Nat → Nat) :
+    B bo (fun id => if id ∈ pre.map (·.1) then att id else 0) (startAt pre rc nn att) := by
+  refine ⟨?_, by simp [startAt]⟩
+  intro id m hm _
+  simp only [startAt] at hm
+  split at hm
+  · rename_i hc
+    simp only [Option.some.injEq] at hm; subst hm
+    have : id ∈ pre.map (·.1) := List.contains_iff_mem.mp hc
+    left; simp [this]
+  · simp at hm
+
 theorem reach_B {fb : Bool} {bo : Nat → Option Nat} {pre : List (Nat × Nat)} {rc : Nat → List Rcpt} {nn : Nat → Bool}
     (hpre : (pre.map (·.1)).Nodup) (hrc : ∀ id ∈ pre.map (·.1), (rc id).Nodup) {q : State}
-    (hr : ReachB fb bo (start pre rc nn) q) : B bo q := by
-  induction hr with
-  | init =>
-    refine ⟨?_, by simp [start]⟩
-    intro id m hm _
-    simp only [start] at hm
-    split at hm
-    · simp only [Option.some.injEq] at hm; subst hm; exact Or.inl rfl
-    · simp at hm
-  | step hprev hc ho hs ih => exact B_step (reach_inv hpre hrc hprev.reach) ih ho hs
+    (hr : ReachB fb bo (start pre rc nn) q) : B bo (fun _ => 0) q := by
+  have hA0 := A_startAt pre rc nn (fun _ => 0)
+  have hB0 := B_startAt bo pre rc nn (fun _ => 0)
+  simp only [ite_self] at hA0 hB0
+  exact reach_B_from (inv_start fb pre rc nn hpre hrc) hA0 hB0 hr
 
 end Slimta.QM
